@@ -100,7 +100,7 @@ func checkC01(c *hx.Ctx) {
 				F = append(F, Place(d, t, n, id, p.GenesisTime))
 			}
 		}
-		pc := hx.NewClient(hx.NewVersion(p, hx.VersionOpts{}))
+		pc := hx.NewClient(hx.NewVersion(p, hx.VersionOpts{ParserOpts: hx.StrictResolution()}))
 		c.Eval()
 		rmL, errL := SUTResolve(pc, ch.U.Suffix, L, r.Perm(len(L)))
 		all := append(append([]*ref.Op{}, L...), F...)
@@ -145,7 +145,7 @@ func checkC01(c *hx.Ctx) {
 		}
 	})
 	// ---- exhaustive placement: every forgery kind aimed at every intermediate state, anchored at every position
-	nChains := c.N(40, 700)
+	nChains := c.N(24, 700)
 	cseeds := make([]uint64, nChains)
 	for i := range cseeds {
 		cseeds[i] = root.U64()
@@ -178,7 +178,7 @@ func checkC01(c *hx.Ctx) {
 		for k, o := range ch.Legit {
 			L = append(L, Place(o, uint64(1000+20*k), 3, fmt.Sprintf("L%d", k), p.GenesisTime))
 		}
-		pc := hx.NewClient(hx.NewVersion(p, hx.VersionOpts{}))
+		pc := hx.NewClient(hx.NewVersion(p, hx.VersionOpts{ParserOpts: hx.StrictResolution()}))
 		rmL, errL := SUTResolve(pc, ch.U.Suffix, L, nil)
 		kL := rmKey(rmL, errL)
 		st, merr := ref.Resolve(L, ref.ResolveOpts{})
